@@ -291,6 +291,9 @@ def random_cfg(rng, alg=None, family="roomy", nobs=None, maxn=4):
         # an observation that produces no data at all (a data product rate
         # below half a unit is rounded to 0 by the configuration parser)
         obs[rng.randrange(len(obs))]["rate"] = 0
+    if family == "roomy" and len(obs) > 1 and rng.random() < 0.15:
+        # a quiet gap: everything before the last observation has drained when it falls due
+        obs[-1]["est"] += rng.randint(8, 14)
     if len(obs) > 1 and rng.random() < 0.15:
         obs[1]["o"] = "b_x"      # observation names may contain underscores
     if len(obs) > 1 and rng.random() < 0.3:
